@@ -106,7 +106,7 @@ Definition spec_digest (big : list (bdsl * option Z)) (d : option ddoc) : option
   | None => None
   | Some dd =>
       match parse_doc (table big) (expand_doc dd) with
-      | Some sd => if wf_doc_b sd then Some (digest keccak256 sd) else None
+      | Some sd => if well_formed_b sd then Some (digest keccak256 sd) else None
       | None => None
       end
   end.
